@@ -19,6 +19,7 @@
 #include <cctype>
 #include <cstdint>
 #include <string>
+#include <type_traits>
 #include <utility>
 
 #include "runtime/cpp/emboss_defines.h"
@@ -74,7 +75,7 @@ class EnumView final {
   bool TryToWrite(ValueType value) const {
     if (!CouldWriteValue(value)) return false;
     if (!IsComplete()) return false;
-    buffer_.WriteUInt(static_cast<typename BitViewType::ValueType>(value));
+    buffer_.WriteUInt(ToBitViewValue(value));
     return true;
   }
   static constexpr bool CouldWriteValue(ValueType value) {
@@ -88,19 +89,17 @@ class EnumView final {
     //
     // b1) the field size is large enough to hold all values, or
     // b2) the value is less than 2**(field size in bits)
-    return value == static_cast<ValueType>(
-                        static_cast<typename BitViewType::ValueType>(value)) &&
+    return value == static_cast<ValueType>(ToBitViewValue(value)) &&
            ((Parameters::kBits ==
              sizeof(typename BitViewType::ValueType) * 8) ||
-            (static_cast<typename BitViewType::ValueType>(value) <
+            (ToBitViewValue(value) <
              ((static_cast<typename BitViewType::ValueType>(1)
                << (Parameters::kBits - 1))
               << 1))) &&
            Parameters::ValueIsOk(value);
   }
   void UncheckedWrite(ValueType value) const {
-    buffer_.UncheckedWriteUInt(
-        static_cast<typename BitViewType::ValueType>(value));
+    buffer_.UncheckedWriteUInt(ToBitViewValue(value));
   }
 
   template <typename OtherView>
@@ -150,6 +149,18 @@ class EnumView final {
   static constexpr int SizeInBits() { return Parameters::kBits; }
 
  private:
+  // Converts value to the (unsigned) value type of the underlying bit view.
+  // The conversion goes through the unsigned counterpart of the enum's
+  // underlying type: converting a negative value directly would sign-extend it
+  // to the full width of the bit view's value type, which can be wider than the
+  // enum (for example, an 8-bit enum inside of a 16-bit `bits`).
+  static constexpr typename BitViewType::ValueType ToBitViewValue(
+      ValueType value) {
+    return static_cast<typename BitViewType::ValueType>(
+        static_cast<typename ::std::make_unsigned<
+            typename ::std::underlying_type<ValueType>::type>::type>(value));
+  }
+
   BitViewType buffer_;
 };
 
